@@ -715,8 +715,10 @@ class Unit:
         """self == other"""
         if isinstance(other, Unit):
             if self.qty_cls is other.qty_cls:
-                if self._equiv is None or other._equiv is None:
-                    # a unit without scale equals itself only
+                if self.qty_cls.ref_unit is None or self._equiv is None \
+                        or other._equiv is None:
+                    # without a reference unit or without a scale a unit
+                    # equals itself only
                     return self is other
                 return self._equiv == other._equiv
         return False
